@@ -169,7 +169,7 @@ JudgeGen(sc, u) ==
   If(u.gen.exit = 0 /\ ~u.gen.hasout, GenMis(u, "C18", "exit0-no-output", TRUE, FALSE)) \o
   If(u.gen.hasout /\ ~u.gen.compiles, GenMis(u, "C08", "compiles", TRUE, u.gen.msg)) \o
   If(u.gen.hasout /\ ~u.gen.gofmt, GenMis(u, "C08", "gofmt", TRUE, FALSE)) \o
-  If(u.gen.stderr # "" /\ u.gen.exit = 0, GenMis(u, "C15", "silent", "", u.gen.stderr)) \o
+  If(u.gen.stderr # "" /\ u.gen.exit = 0 /\ ~("nowarn" \in DOMAIN sc /\ ~sc.nowarn), GenMis(u, "C15", "silent", "", u.gen.stderr)) \o
   If(u.fate # "", GenMis(u, "C13", u.fate, "", u.note))
 
 \* diagnostics of a grammar that need not be well formed (family "diag"); u.gen.diags is the list of
